@@ -8,7 +8,7 @@
 #include "ct.h"
 unsigned ct_n; int ct_phase; uint64_t ct_val[CT_MAX];
 
-#define SEC 1100
+#define SEC 1300
 uint8_t sym_sec[2][SEC];                        /* two independent assignments of all secrets */
 static uint8_t ctx[1024] __attribute__((aligned(32)));   /* key schedule / CTR context / handle image, one object for both phases */
 static uint8_t obuf[320], ibuf[320], kbuf[64], tbuf[64 + 320];
@@ -45,11 +45,8 @@ void PARF(uint8_t *, uint8_t *,
 static void secrets(int p)
 {
     const uint8_t *s = sym_sec[p];
-    memcpy(ctx, s, sizeof ctx > 700 ? 700 : sizeof ctx);     /* the whole prior context / schedule is secret ... */
-    memcpy(kbuf, s + 700, 64); memcpy(tbuf, s + 764, 16); memcpy(ibuf, s + 780, 320);
-#if CIPHER == 3 && defined(PARF)
-    memcpy(tbuf, s + 780 - 64, 64);
-#endif
+    memcpy(ctx, s, 800);                                      /* the whole prior context / schedule is secret ... */
+    memcpy(kbuf, s + 800, 64); memcpy(tbuf, s + 864, 64); memcpy(ibuf, s + 928, 320);
     /* ... except the public fields: round count and keystream offset */
 #ifdef ROUNDS_OFF
     *(unsigned *)(ctx + ROUNDS_OFF) = ROUNDS;
